@@ -82,6 +82,33 @@ def replay(arg):
     return 1, mism
 
 
+def _tl_bucket(rng):
+    """2-D traffic-light detection results (ROIs) with labels incl. `unknown`; returns (results, bucket label, g, prm)"""
+    from perception_eval.evaluation.result.object_result import DynamicObjectWithPerceptionResult
+
+    from ..build import obj2d
+
+    labels = ["green", "red", "unknown", "traffic_light"]
+    lb = rng.choice(labels)
+    n = rng.randint(1, 40)
+    confs = rng.sample(range(1, 100000), n)
+    mode = rng.choice(["center", "iou2d"])
+    res = []
+    for k in range(n):
+        off = (rng.randint(0, 800), rng.randint(0, 600))
+        size = (rng.randint(10, 60), rng.randint(10, 60))
+        est = obj2d(off, size=size, label=lb if rng.random() < 0.8 else rng.choice(labels), score=confs[k] / 100000.0, tl=True, vid=k + 1)
+        if rng.random() < 0.15:
+            gt = None
+        else:
+            d = rng.choice([0, 1, 3, 7, 15, 30])
+            gt = obj2d((max(0, off[0] + rng.choice([-1, 1]) * d), max(0, off[1] + rng.choice([-1, 0, 1]) * d)), size=(size[0] + rng.randint(-3, 3) or 1, size[1] + rng.randint(-3, 3) or 1),
+                       label=lb if rng.random() < 0.85 else rng.choice(labels), score=1.0, tl=True, vid=k + 1)
+        res.append(DynamicObjectWithPerceptionResult(est, gt))
+    g = sum(1 for r in res if r.ground_truth_object is not None and r.ground_truth_object.semantic_label.label.value == lb) + rng.choice([0, 1])
+    return res, lb, g, dict(mode=mode, policy="DEFAULT")
+
+
 def _one_mono(arg):
     from perception_eval.evaluation.matching.objects_filter import get_negative_objects, get_positive_objects
     from perception_eval.evaluation.metrics.detection.ap import Ap
@@ -90,14 +117,23 @@ def _one_mono(arg):
 
     from ..build import AW, MODES, vid
 
+    from ..build import TL
+
     seed, k = arg
     rng = random.Random(seed * 31337 + k)
     while True:
-        results, g, prm = apmod._rand_bucket(rng)
-        results = [r for r in results if r.ground_truth_object is None or not r.ground_truth_object.semantic_label.is_fp()][:120]
+        if k % 4 == 3:
+            results, lb, g, prm = _tl_bucket(rng)
+            LB = TL[lb]
+        else:
+            results, g, prm = apmod._rand_bucket(rng)
+            results = [r for r in results if r.ground_truth_object is None or r.ground_truth_object.semantic_label.label.value != "false_positive"][:120]
+            LB = AW["car"]
         mode = prm["mode"]
         if mode in ("iou2d", "iou3d"):
             ladder = sorted(rng.sample([0.0, 0.05, 0.1, 0.2, 0.3, 0.45, 0.6, 0.8], 5), reverse=True)   # looser = smaller IoU
+        elif k % 4 == 3:
+            ladder = sorted(rng.sample([0.0, 0.5, 2.5, 5.5, 12.5, 25.5, 50.5], 5))                       # pixels
         else:
             ladder = sorted(rng.sample([0.0, 0.2, 0.4, 0.75, 1.2, 2.2, 4.5, 9.0], 5))
         vals = [r.get_matching(MODES[mode]).value for r in results if r.ground_truth_object is not None]
@@ -105,15 +141,15 @@ def _one_mono(arg):
             continue
         break
     gts = [r.ground_truth_object for r in results if r.ground_truth_object is not None]
-    g = max(g, sum(1 for o in gts if o.semantic_label.label == AW["car"]))
+    g = max(g, sum(1 for o in gts if o.semantic_label.label == LB))
     ntp, nfn, ap6, aph6, map6, subset = [], [], [], [], [], []
     prev = None
     for thr in ladder:
-        tp, _ = get_positive_objects(results, [AW["car"]], MODES[mode], [thr])
-        _, fn = get_negative_objects(gts, results, [AW["car"]], MODES[mode], [thr])
+        tp, _ = get_positive_objects(results, [LB], MODES[mode], [thr])
+        _, fn = get_negative_objects(gts, results, [LB], MODES[mode], [thr])
         ids = {vid(r.estimated_object) for r in tp}
-        a = Ap(TPMetricsAp(), [list(results)], g, [AW["car"]], MODES[mode], [thr]).ap
-        h = Ap(TPMetricsAph(), [list(results)], g, [AW["car"]], MODES[mode], [thr]).ap
+        a = Ap(TPMetricsAp(), [list(results)], g, [LB], MODES[mode], [thr]).ap
+        h = Ap(TPMetricsAph(), [list(results)], g, [LB], MODES[mode], [thr]).ap if k % 4 != 3 else a
         ntp.append(len(ids))
         nfn.append(len(fn))
         ap6.append(-1 if a == float("inf") else int(round(a * 1e6)))
@@ -122,7 +158,7 @@ def _one_mono(arg):
             subset.append(1 if prev <= ids else 0)
         prev = ids
     ev = dict(tid=0, ev="Mono", ntp=ntp, nfn=nfn, ap6=ap6, aph6=aph6, subset=subset)
-    return ev, dict(mode=mode, ladder=ladder, policy=prm["policy"], n=len(results), g=g, ntp=ntp, nfn=nfn, ap6=ap6)
+    return ev, dict(mode=mode, ladder=ladder, policy=prm["policy"], n=len(results), g=g, ntp=ntp, nfn=nfn, ap6=ap6, family="traffic_light_2d" if k % 4 == 3 else "autoware_3d")
 
 
 def run(ctx: Ctx):
